@@ -27,7 +27,7 @@ func vfConfig(strategy pbredis.ReadStrategy, cps *pbredis.Compression) *config {
 	opt := &protocol.RedisOption{ReadStrategy: strategy, Compression: cps}
 	raw := &service.Config{
 		ConnectTimeout:  vfDur(time.Second),
-		IdleTimeout:     vfDur(0),
+		IdleTimeout:     vfDur(10 * time.Minute),
 		Protocol:        protocol.Redis,
 		ProtocolOptions: &service.Config_RedisOption{RedisOption: opt},
 	}
